@@ -49,8 +49,11 @@ def showCanonRes : CanonRes → String
   | .panic => "panic"
   | .finalizeError => "finalize-error"
 
-def runCanon (ty : GType) (ps : List EProd) : String :=
-  if frontEndRejects ps then "rejected" else showCanonRes (canon ty (canonFuel ps) ps)
+/-- The front end (`try_to_convert`, after the `fix:` for finding F23) also rejects a grammar whose
+    start symbol has no production, before any transformation. -/
+def runCanon (ty : GType) (st : Name) (ps : List EProd) : String :=
+  if frontEndRejects ps || !(ps.any (fun p => p.lhs == st)) then "rejected"
+  else showCanonRes (canon ty (canonFuel ps) ps)
 
 -- @handler canon handleCanon
 /-- `canon <ll|lr> <start> <ebnf>` → `rejected` | `ok <rules>` | `fuel-exhausted` | `panic` |
@@ -58,9 +61,9 @@ def runCanon (ty : GType) (ps : List EProd) : String :=
 def handleCanon : List String → Option String
   | [ty, st, g] => do
     let ty ← parseGType ty
-    let _ ← parseName st
+    let st ← parseName st
     let ps ← parseEGrammar g
-    some (runCanon ty ps)
+    some (runCanon ty st ps)
   | _ => none
 
 /-- a left-hand side of `rs` that is not a left-hand side of the input but a name of it -/
